@@ -1542,6 +1542,8 @@ class PooledClient:
         with self.client_pool.get_and_release(destroy_on_fail=True) as client:
             try:
                 return client.get(key, default)
+            except MemcacheIllegalInputError:
+                raise
             except Exception:
                 if self.ignore_exc:
                     return default
@@ -1552,6 +1554,8 @@ class PooledClient:
         with self.client_pool.get_and_release(destroy_on_fail=True) as client:
             try:
                 return client.gat(key, expire, default)
+            except MemcacheIllegalInputError:
+                raise
             except Exception:
                 if self.ignore_exc:
                     return default
@@ -1564,6 +1568,8 @@ class PooledClient:
         with self.client_pool.get_and_release(destroy_on_fail=True) as client:
             try:
                 return client.gats(key, expire, default, cas_default)
+            except MemcacheIllegalInputError:
+                raise
             except Exception:
                 if self.ignore_exc:
                     return (default, cas_default)
@@ -1574,6 +1580,8 @@ class PooledClient:
         with self.client_pool.get_and_release(destroy_on_fail=True) as client:
             try:
                 return client.get_many(keys)
+            except MemcacheIllegalInputError:
+                raise
             except Exception:
                 if self.ignore_exc:
                     return {}
@@ -1588,6 +1596,8 @@ class PooledClient:
         with self.client_pool.get_and_release(destroy_on_fail=True) as client:
             try:
                 return client.gets(key, default, cas_default)
+            except MemcacheIllegalInputError:
+                raise
             except Exception:
                 if self.ignore_exc:
                     return (default, cas_default)
@@ -1598,6 +1608,8 @@ class PooledClient:
         with self.client_pool.get_and_release(destroy_on_fail=True) as client:
             try:
                 return client.gets_many(keys)
+            except MemcacheIllegalInputError:
+                raise
             except Exception:
                 if self.ignore_exc:
                     return {}
@@ -1641,6 +1653,8 @@ class PooledClient:
         with self.client_pool.get_and_release(destroy_on_fail=True) as client:
             try:
                 return client.stats(*args)
+            except MemcacheIllegalInputError:
+                raise
             except Exception:
                 if self.ignore_exc:
                     return {}
